@@ -33,6 +33,10 @@ def _table() -> Dict[int, str]:
         if hasattr(np, n):
             t.setdefault(id(getattr(np, n)), "np." + n)
     t[id(np.linalg.norm)] = "np.linalg.norm"
+    import functools as _ft
+    import operator as _op
+    t[id(_ft.partial)] = "functools.partial"
+    t[id(_op.itemgetter)] = "operator.itemgetter"
     for n in ("sqrt", "fabs", "ceil", "floor", "log", "atan", "pow", "exp", "hypot", "isclose"):
         t.setdefault(id(getattr(math, n)), "math." + n)
     import builtins
@@ -135,6 +139,12 @@ def dispatch_call(fr: Frame, e: ast.Call, env, guard: G, stmt):
         if called is not _NOT_CALLABLE:
             return called
         fr.events.append(Event(guard, "call", f.id, tuple(args), e, fr.havoc_depth))
+        params_ = fr.fi.signature.positional + fr.fi.signature.kwonly
+        if f.id not in params_ and not isinstance(v, PW):
+            # a local holding a callable of unknown origin (functools.partial(..), the result of a dispatch, a closure handed around):
+            # unlike a function-valued *parameter* (a declared slot) nothing is known about what it computes
+            from . import report as _report
+            _report.UNKNOWN_CALLABLES.add("slot:" + f.id)
         return _opaque_call(fr, "slot:" + f.id, args, kwargs)
     if isinstance(f, (ast.Call, ast.IfExp)) or (isinstance(f, ast.Subscript) and not (isinstance(fr.expr(f.value, env), Obj))):
         # the callee is itself computed: table.get(key, default)(...), (a if c else b)(...)
@@ -187,6 +197,16 @@ def _call_value(fr: Frame, v, e, args, kwargs, env, guard, stmt):
         return mk_pw(cases)
     if not isinstance(v, Obj):
         return _NOT_CALLABLE
+    if v.tag == "partial":
+        # functools.partial(f, *a, **k)(*b, **m) is f(*a, *b, **{**k, **m})
+        reg = ev.__dict__.setdefault("partial_registry", {}) if hasattr(ev, "__dict__") else {}
+        ent = reg.get(v.val)
+        if ent is None:
+            return _NOT_CALLABLE
+        fval, pargs, pkw = ent
+        merged = dict(pkw)
+        merged.update(kwargs)
+        return _call_value(fr, fval, e, list(pargs) + list(args), merged, env, guard, stmt)
     if v.tag == "func":
         fi = ev.repo.func(v.val) if "." in str(v.val) else None
         if fi is None:
@@ -259,7 +279,19 @@ def _rat_args(fr: Frame, args, kwargs) -> List[Rat]:
     return out
 
 
+# keyword arguments spelled out with the dependency's own default value: the same call
+DEFAULT_KEYWORDS = {"np.searchsorted": {"side": "left"}, "np.sort": {"axis": -1}, "np.argsort": {"axis": -1}, "np.unique": {"return_index": False},
+                    "np.concatenate": {"axis": 0}, "np.diff": {"n": 1}}
+
+
 def _opaque_call(fr: Frame, name: str, args, kwargs, array: Optional[bool] = None):
+    for k_, dv_ in DEFAULT_KEYWORDS.get(name, {}).items():
+        if k_ in kwargs:
+            v_ = kwargs[k_]
+            same = (isinstance(v_, Obj) and v_.tag == "str" and v_.val == dv_) or (isinstance(v_, Rat) and not isinstance(dv_, (str, bool)) and v_.is_const() == dv_) \
+                or (isinstance(v_, G) and isinstance(dv_, bool) and v_.kind == ("true" if dv_ else "false"))
+            if same:
+                kwargs = {a_: b_ for a_, b_ in kwargs.items() if a_ != k_}
     kws = sorted(kwargs)
 
     def mk(*vals):
@@ -313,6 +345,7 @@ def _package_call(fr: Frame, fi, e, args, kwargs, guard, stmt):
             return res.value()
         except Unsupported as ex:
             ev.notes.append(f"not inlined {fi.qualname}: {ex}")
+            del ev.summary_log[n_log:]       # handled here: the call stays opaque, the caller's own loops are not affected
     # the call event carries every bound argument in the callee's parameter order (positional or keyword alike)
     ev_args = []
     for n_ in pos:
@@ -329,6 +362,11 @@ def _package_call(fr: Frame, fi, e, args, kwargs, guard, stmt):
         return anf.opaque("call:" + fi.qualname, *ra, array=any(x.is_array() for x in ra), extra=tuple(names) + ((site,) if site else ()))
     plain = lift(mk, *[amap[n] for n in names])
     refined = _by_return_site(fr, fi, amap, names, mk) if fr.depth < ev.inline_depth and fi.qualname not in ev.no_inline else None
+    if refined is None and fi.qualname not in ev.no_inline and fi.name.startswith("_"):
+        # a private helper kept opaque not by a rule's choice but because its body could not be read here (loops, depth) and
+        # not even which of its exits is taken: what it returns is unknown, and no rule knows it by name
+        from . import report as _report
+        _report.OPAQUE_FALLBACKS.add("call:" + fi.qualname)
     return refined if refined is not None else plain
 
 
@@ -672,6 +710,11 @@ def _known(fr: Frame, name: str, e, args, kwargs, env, guard, stmt):
             return mk_pw([(c, a(1)), (g_not(c), a(2))])
     if name == "math.atan":
         return lift(lambda v: anf.opaque("atan", R(v)), a(0))
+    if name == "functools.partial" and len(args) >= 1 and isinstance(a(0), Obj) and a(0).tag in ("func", "lambda", "partial"):
+        key = "partial:" + repr((vkey(a(0)), tuple(vkey(x) for x in args[1:]), tuple(sorted((k_, repr(vkey(x))) for k_, x in kwargs.items()))))
+        reg = ev.__dict__.setdefault("partial_registry", {}) if hasattr(ev, "__dict__") else {}
+        reg[key] = (a(0), list(args[1:]), dict(kwargs))
+        return Obj("partial", key)
     if name == "np.take" and len(args) == 2 and isinstance(a(0), Vec) and a(0).kind == "point" and isinstance(kwargs.get("axis"), Rat) and kwargs["axis"].is_zero() \
             and isinstance(a(1), Rat) and a(1).is_array():
         # rows of a points array selected by position: every column taken at the same positions
